@@ -602,6 +602,18 @@ def wl_near_multiple(ctx, idx, rng):
         f = np.array([eps, 0.25, 0.5][:n]) if n > 1 else np.array(eps)
         p = Phase(c, f)
     d = float(gen.pick(rng, [1.0, 1.0, 0.5, 2.0])) * u.cycle
+    if rng.random() < 0.5:
+        # a two-part Phase divisor (a spin period in cycles of another clock) and a dividend a hair below / above a whole multiple of it
+        with probes.quiet():
+            d = Phase(np.array(float(rng.integers(1, 2000))), np.array(float(rng.uniform(-0.5, 0.5))))
+            if rng.random() < 0.3:
+                d = -d
+            kk = float(rng.integers(1, 10 ** 6))
+            e_ = float(10 ** rng.uniform(-15, -9)) * float(gen.pick(rng, [-1, -1, 1, 0]))
+            p = d * kk + Phase(0.0, e_)
+            if n > 1:
+                pi_, pf_ = float(np.asarray(p.view(np.ndarray))["int"]), float(np.asarray(p.view(np.ndarray))["frac"])
+                p = Phase(np.array([pi_, pi_ + 3.0, 7.0][:n]), np.array([pf_, pf_, 0.25][:n]))
     which = ["floordiv", "mod", "divmod", "floordiv_out", "divmod_out"][idx % 5]
     shp_ = np.shape(p)
 
